@@ -100,6 +100,16 @@ def lineage(parent, t):
     return out
 
 
+class Arr(list):
+    """List with the bit of numpy indexing the code under test may use on a distance row / index vector:
+    integer, slice and integer-sequence ("fancy") indexing."""
+    def __getitem__(self, i):
+        if isinstance(i, (list, tuple)):
+            return Arr([list.__getitem__(self, j) for j in i])
+        r = list.__getitem__(self, i)
+        return Arr(r) if isinstance(i, slice) else r
+
+
 class NpStub:
     """Contract-level stand-ins for the numpy calls made by classify / get_result_item on a distance row.
 
@@ -109,6 +119,8 @@ class NpStub:
     integers supplied by the harness: equal values are ordered by (tiebreak[j], j), so every sorting permutation is
     reachable, and the choice is only looked at if the code under test actually requests an unstable sort."""
     inf = float('inf')
+
+    plain = True       # return plain lists from stable sorts (cheaper under tracing); Arr only where fancy indexing may follow
 
     def __init__(self, tiebreak=None):
         self.tiebreak = tiebreak
@@ -146,7 +158,29 @@ class NpStub:
             while j > 0 and less(idx[j], idx[j - 1]):
                 idx[j], idx[j - 1] = idx[j - 1], idx[j]
                 j -= 1
-        return idx
+        return idx if (stable and self.plain) else Arr(idx)
+
+    def argpartition(self, ds, kth, axis=-1, kind='introselect', order=None):
+        """Contract: element kth is in its sorted position, smaller ones before, larger ones after, order otherwise
+        arbitrary.  Any fully sorted order with ties broken arbitrarily is one admissible result; it exposes the
+        freedom that matters (which of several tied elements end up before position kth)."""
+        return self.argsort(ds, kind=None)
+
+    @staticmethod
+    def sort(a, axis=-1, kind=None, order=None):
+        out = list(a)
+        for i in range(1, len(out)):
+            j = i
+            while j > 0 and out[j] < out[j - 1]:
+                out[j], out[j - 1] = out[j - 1], out[j]
+                j -= 1
+        return Arr(out)
+
+    @staticmethod
+    def asarray(a, dtype=None):
+        return a if isinstance(a, Arr) else Arr(a)
+
+    array = asarray
 
 
 def sorts(perm, ds):
